@@ -3,9 +3,12 @@
 //@ module verif_enum_matchers
 //@ harness e_numeric_operand kind=enum props=C14,C11 bound=<<every operand of 0..=4 symbols over {+, -, 0, 1, 9, x}, plus 18446744073709551615 and 18446744073709551616 with each sign>> label=<<a numeric operand is an optional + or - followed by decimal digits only: +N reads as 'greater than N', -N as 'less than N' (also for N = 0), N as 'equal to N'; anything else, and values beyond u64, are rejected>>
 //@ harness e_size kind=enum props=C14 bound=<<file sizes 0, 1, 2, 511, 512, 513, 1024, 1025, 2^20, 2^20+1 (sparse files) x operands N, +N, -N for N in {0, 1, 2, 3, 2^34, 2^44, 2^54, 2^55, 2^63, 2^64-1} x units c, w, b, none, k, M, G>> label=<<-size compares N with the size in bytes divided by the unit, rounded up to the next whole unit: N equal, +N greater, -N less (exact arithmetic, also where N x unit exceeds 2^64)>>
+//@ harness e_size_kinds kind=enum props=C14 bound=<<a directory, a FIFO and an empty regular file x -size N, +N, -N for N in 0, 1, 8 x units c, b, k>> label=<<-size reads the size of the status record uniformly, whatever the file type: exactly one of N, +N, -N is true and it is the one the rounded-up st_size dictates>>
+//@ harness e_ids kind=enum props=C14,C13 bound=<<files owned by uid/gid 0 and (when running as root) 1234/4321 x -uid/-gid N, +N, -N for N in {0, 1, 1233, 1234, 1235, 4321, 2^32-1, 2^32, 2^32+1234, 2^32+4321, 2^63, 2^64-1}>> label=<<-uid/-gid compare the numeric id with N as integers: N equal, +N greater, -N less, for every N up to 2^64-1>>
+//@ harness e_regex_language kind=enum props=C17 bound=<<patterns d/ followed by 1..=3 items, each an atom a, b or . with an optional *, +, ?, {0,2} or {1,2}, written in each of emacs, posix-basic, posix-extended and grep syntax x paths d/ + up to 3 letters over {a, b}>> label=<<-regex is true exactly when the whole path is in the language of the pattern (oracle: the same pattern as an anchored regex of the independent `regex` crate)>>
 //@ harness e_type_tests kind=enum props=C13 bound=<<a real tree with a file (mode 0600), a directory, a link to the file, a link to the directory, a dangling link, each also given as starting point x -P/-H/-L x -type/-xtype with letters f, d, l x alone, followed by -perm 600, or preceded by -perm 600>> label=<<-type tests the record the follow mode selects (lstat under -P, stat falling back to lstat under -L, stat for starting points only under -H), -xtype makes the opposite choice, and -perm reads the record of the follow mode whatever was evaluated before it on the same entry>>
 //@ harness e_iregex_case kind=enum props=C17 bound=<<patterns abc, a.c, [a-c]+, [0-^]+, [_-~]+, [^a]b, (letters also upper-cased) x paths abc, ABC, aBc, 123, a-c, xb>> label=<<-iregex ignores letter case: its verdict does not change when the letters of the path or of the pattern change case, and it equals -regex when both are lower-cased and the pattern has no range spanning only one case>>
-//@ harness e_regextype_scope kind=enum props=C17 bound=<<syntaxes emacs, posix-basic, posix-extended, grep x patterns a+, a\+, a{2}, a\{2\}, a|b, a\|b, (a), \(a\) x paths aa, a+, a{2}, a|b, a, b, (a) x -regextype placed before the -regex directly, inside an earlier parenthesis group, inside the same group, or after another -regextype>> label=<<-regex uses the syntax of the nearest preceding -regextype on the command line, wherever parentheses are>>
+//@ harness e_regextype_scope kind=enum props=C17 bound=<<syntaxes emacs, posix-basic, posix-extended, grep x patterns a+, a\+, a{2}, a\{2\}, a|b, a\|b, (a), \(a\) x paths aa, a+, a{2}, a|b, a, b, (a) x -regextype placed before the -regex directly, inside an earlier parenthesis group, inside the same group, after another -regextype, or before an earlier -regex that already used it>> label=<<-regex uses the syntax of the nearest preceding -regextype on the command line, wherever parentheses are>>
 //@ harness e_regex_whole_path kind=enum props=C17 bound=<<literal patterns and paths of 1..=3 symbols over {a, b, /, e-acute}; -regex and -iregex (paths also with A)>> label=<<a pattern without metacharacters matches exactly the path equal to it (ignoring letter case for -iregex): never a prefix, never a substring, multi-byte characters included>>
 #[cfg(verif_replay)]
 mod verif_enum_matchers {
@@ -53,6 +56,79 @@ mod verif_enum_matchers {
         assert!(got == Some(want), "-size rounding / comparison");
     }
     #[test] fn e_size() { kani::explore(size_body) }
+
+    fn size_kinds_body() {
+        let d = std::env::temp_dir().join(format!("verif-enum-sizek-{}", std::process::id()));
+        let _ = std::fs::remove_dir_all(&d);
+        std::fs::create_dir_all(d.join("dir")).unwrap();
+        std::fs::write(d.join("empty"), "").unwrap();
+        let c = std::ffi::CString::new(d.join("fifo").to_str().unwrap()).unwrap();
+        assert!(unsafe { uucore::libc::mkfifo(c.as_ptr(), 0o600) } == 0);
+        let path = d.join(["dir", "fifo", "empty"][pick(3)]);
+        let (n, (u, ub), form) = ([0u64, 1, 8][pick(3)], [("c", 1u128), ("b", 512), ("k", 1024)][pick(3)], pick(3));
+        let size = std::fs::symlink_metadata(&path).unwrap().len() as u128;
+        let measured = (size + ub - 1) / ub;
+        let want = match form { 0 => measured == n as u128, 1 => measured > n as u128, _ => measured < n as u128 };
+        let operand = format!("{}{n}{u}", ["", "+", "-"][form]);
+        let got = eval(&["-size", &operand, "-a", "-true"], path.to_str().unwrap());
+        let _ = std::fs::remove_dir_all(&d);
+        if got != Some(want) { eprintln!("  input {} (st_size {size}), -size {operand}: {got:?}, expected {want}", path.file_name().unwrap().to_string_lossy()); }
+        assert!(got == Some(want), "-size on a non-regular entry");
+    }
+    #[test] fn e_size_kinds() { kani::explore(size_kinds_body) }
+
+    fn ids_body() {
+        use std::os::unix::fs::MetadataExt;
+        let d = std::env::temp_dir().join(format!("verif-enum-ids-{}", std::process::id()));
+        let _ = std::fs::remove_dir_all(&d);
+        std::fs::create_dir_all(&d).unwrap();
+        let f = d.join("f");
+        std::fs::write(&f, "").unwrap();
+        if pick(2) == 1 { let _ = std::os::unix::fs::chown(&f, Some(1234), Some(4321)); } // only root can; the ids are read back below
+        let md = std::fs::metadata(&f).unwrap();
+        let ns = [0u64, 1, 1233, 1234, 1235, 4321, (1 << 32) - 1, 1 << 32, (1 << 32) + 1234, (1 << 32) + 4321, 1 << 63, u64::MAX];
+        let (n, form, gid) = (ns[pick(ns.len())], pick(3), pick(2) == 1);
+        let id = if gid { md.gid() } else { md.uid() } as u128;
+        let want = match form { 0 => id == n as u128, 1 => id > n as u128, _ => id < n as u128 };
+        let operand = format!("{}{n}", ["", "+", "-"][form]);
+        let got = eval(&[if gid { "-gid" } else { "-uid" }, &operand, "-a", "-true"], f.to_str().unwrap());
+        let _ = std::fs::remove_dir_all(&d);
+        if got != Some(want) { eprintln!("  input file with {} {id}: {} {operand}: {got:?}, expected {want}", if gid { "gid" } else { "uid" }, if gid { "-gid" } else { "-uid" }); }
+        assert!(got == Some(want), "-uid/-gid numeric comparison");
+    }
+    #[test] fn e_ids() { kani::explore(ids_body) }
+
+    fn regex_language_body() {
+        // (name, group open, group close are not needed: no groups) interval braces and the spelling of + and ? per syntax
+        let syntaxes = [("emacs", "\\{", "\\}", "+", "?"), ("posix-basic", "\\{", "\\}", "\\{1,\\}", "\\{0,1\\}"), ("posix-extended", "{", "}", "+", "?"), ("grep", "\\{", "\\}", "\\+", "\\?")];
+        let (sname, lb, rb, plus, quest) = syntaxes[pick(4)];
+        let nitems = 1 + pick(3);
+        let (mut pat, mut oracle) = (String::from("d/"), String::from("^(?:d/"));
+        for _ in 0..nitems {
+            let atom = ["a", "b", "."][pick(3)];
+            pat.push_str(atom); oracle.push_str(atom);
+            match pick(6) {
+                0 => {}
+                1 => { pat.push('*'); oracle.push('*'); }
+                2 => { pat.push_str(plus); oracle.push('+'); }
+                3 => { pat.push_str(quest); oracle.push('?'); }
+                4 => { pat.push_str(&format!("{lb}0,2{rb}")); oracle.push_str("{0,2}"); }
+                _ => { pat.push_str(&format!("{lb}1,2{rb}")); oracle.push_str("{1,2}"); }
+            }
+        }
+        oracle.push_str(")$");
+        let re = ::regex::Regex::new(&oracle).unwrap();
+        let mut paths = vec![String::from("d/")];
+        let mut last = paths.clone();
+        for _ in 0..3 { let mut nx = Vec::new(); for p in &last { for c in ["a", "b"] { nx.push(format!("{p}{c}")); } } paths.extend(nx.iter().cloned()); last = nx; }
+        for path in &paths {
+            let got = eval(&["-regextype", sname, "-regex", &pat, "-a", "-true"], path);
+            let want = re.is_match(path);
+            if got != Some(want) { eprintln!("  input -regextype {sname} -regex {pat:?} on {path:?}: {got:?}, expected {want} (oracle {oracle:?})"); }
+            assert!(got == Some(want), "-regex differs from language membership of the whole path");
+        }
+    }
+    #[test] fn e_regex_language() { kani::explore(regex_language_body) }
 
     fn type_tests_body() {
         use std::os::unix::fs::{symlink, PermissionsExt};
@@ -127,13 +203,14 @@ mod verif_enum_matchers {
             Err(_) => None,
         };
         // -fprint-free forms: the final -false keeps the default -print away
-        let forms: [Vec<&str>; 4] = [
+        let forms: [Vec<&str>; 5] = [
+            vec!["-regextype", tname, "-regex", "zzz", "-o", "-regex", pat],   // the syntax stays in force for every later -regex
             vec!["-regextype", tname, "-regex", pat],
             vec!["(", "-regextype", tname, ")", "-regex", pat],
             vec!["(", "-regextype", tname, "-regex", pat, ")"],
             vec!["-regextype", other, "(", "-true", "-regextype", tname, ")", "-regex", pat],
         ];
-        let form = &forms[pick(4)];
+        let form = &forms[pick(5)];
         let mut args = form.clone();
         args.extend_from_slice(&["-a", "-true"]);
         let got = eval(&args, path);
